@@ -33,7 +33,7 @@ const PER_TYPE_SIZE: u64 = 38 * 41 * 2;
 
 fn parts(t: Tier) -> Vec<Part> {
     let (a, b) = match t {
-        Tier::Quick => (900_000, 600_000),
+        Tier::Quick => (600_000, 600_000),
         Tier::Thorough => (10_000_000, 6_000_000),
     };
     vec![tape("wire", a, 900), tape("reveal", b, 400), tape("pertype-random", b, 1300), enumerate("grid", GRID_SIZE), enumerate("pertype", PER_TYPE_SIZE)]
